@@ -19,6 +19,30 @@ import c05_gen as G  # noqa: E402
 
 FRESH0 = 900   # ids given to the model for fresh symbols when the real code refused
 
+# candidate repairs (fixes/C05-*.patch) present in the tree under test: probed on every run, one
+# canonical target per flag (order as in the Lean structure `C05.Fixes`)
+FIXES = {"fuseOrder": 0, "chunkDiv": 0, "chunkSelf": 0}
+_PROBE_HEAD = ("program p\n  integer :: s0, s1, t, i, j, k, ii, jj\n  integer, dimension(-14:26) :: a, b, c\n"
+               "  i = 41\n")
+PROBES = {
+    "fuseOrder": ("fuse", "  do i = 1, 4\n    a(i) = 1\n  enddo\n  do i = 1, 4\n    b(i) = 2\n  enddo\n", [1, 0], None),
+    "chunkDiv": ("chunk", "  do i = 1, 9, 2\n    a(i) = 1\n  enddo\n", [0], {"chunksize": 3}),
+    "chunkSelf": ("chunk", "  do i = 1, i - 35\n    a(i) = 1\n  enddo\n", [0], {"chunksize": 2}),
+}
+
+
+def probe_fixes():
+    """which repairs does the live code contain?  (a repaired validate refuses the canonical target)"""
+    for name, (kind, body, target, opts) in PROBES.items():
+        c = run_real(Case(kind, None, target, opts, False, src=_PROBE_HEAD + body + "  print *, a, b\nend program p\n"))
+        if c.skip is not None or c.accepted is None:
+            raise common.Infra(f"C05 probe {name} did not run: {c.skip}")
+        FIXES[name] = 0 if c.accepted else 1
+
+
+def with_fixes(line):
+    return f"(fixes {FIXES['fuseOrder']} {FIXES['chunkDiv']} {FIXES['chunkSelf']} {line})"
+
 
 # ---------------------------------------------------------------------------
 # canonical form of MiniF S-expressions (seq is associative, skip is its unit)
@@ -356,6 +380,7 @@ REASON_TEXT = {
     "notAssignment": "directly within a loop", "hoistReadAndWritten": "both read and written",
     "hoistAccessedBefore": "accessed earlier", "hoistOtherWrite": "additional write",
     "hoistReadsWritten": "written somewhere else",
+    "stepNotDividing": "does not divide", "boundSelf": "depend on the loop variable",
 }
 
 
@@ -533,7 +558,7 @@ def evaluate(chk, cases, stats, gf_budget, sample_rate=0.04):
     cases = [run_real(c) for c in cases]
     live = [c for c in cases if c.skip is None]
     stats["skipped"] += len(cases) - len(live)
-    model = common.driver("C05", [c.line for c in live])
+    model = common.driver("C05", [with_fixes(c.line) for c in live])
     jobs, owners = [], []
     for c in live:
         if c.accepted and c.new_prog is not None:
@@ -894,6 +919,8 @@ def run(chk):
                                "MiniF semantics (validated against gfortran on every differing case and a sample)",
                                "harness/minif.py exporter, harness/props/c05.py correspondence and classifiers"]
     chk.lean()
+    probe_fixes()
+    chk.cov["repairs_present_in_tree"] = dict(FIXES)
     known = common.known_findings("C05")
     stats = {"kinds": {}, "outcomes": {}, "skipped": 0, "overflow_skipped": 0, "gfortran_runs": 0,
              "gfortran_trap_skipped": 0, "gfortran_budget_exhausted": 0, "oracle_disagreements": 0,
